@@ -57,6 +57,13 @@ def long_runs(n, blank=' '):
             '\n'.join(['#mute'] * min(n, 500) + ['.byte 1'] + ['#unmute'] * min(n, 500))]
 
 
+# a name whose only definition stands in a branch that is not compiled is not defined
+DEAD_BRANCH_NAMES = ['#if 0\nK_DEAD1 = 5\n#endif\nldi K_DEAD1', '#ifdef C14_NOT_DEFINED\ndead_lbl2:\nnop\n#endif\njmp dead_lbl2',
+                     '#if 1\nnop\n#else\nK_DEAD3 EQU 7\n#endif\n.byte K_DEAD3', '#if 0\n#define DEAD_SYM4 9\n#endif\n.byte DEAD_SYM4',
+                     '#if 0\n#elif 0\nK_DEAD5 = 1\n#else\nnop\n#endif\n.2byte K_DEAD5 + 1', '#if 0\n#if 1\nK_DEAD6 = 2\n#endif\n#endif\nmv2 a, K_DEAD6',
+                     '#ifndef C14_NOT_DEFINED\nnop\n#else\n_dead_f7:\nnop\n#endif\n.2byte _dead_f7']
+
+
 def _maybe_muted(rng, ins):
     """a faulty statement is faulty also where nothing is emitted: a quarter of the planted faults sit inside #mute .. #unmute"""
     if rng.random() < 0.25 and not ins.startswith('#mute'):
@@ -138,7 +145,7 @@ def corrupt(rng, lines, kind):
                           'mv2 a, unknown_imm', 'ldx [sp+undefined_off]', 'lix sp+undefined_idx',
                           # a local label that exists, but not in the region of the reference
                           'c14_g1:\n.c14_loc:\nnop\n_c14_f:\njmp .c14_loc', 'c14_g2:\n.c14_loc2:\nnop\nc14_g3:\njmp .c14_loc2',
-                          'c14_g4:\n.c14_loc3:\nnop\n.org $780\njmp .c14_loc3', '_c14_f2:\n.c14_loc4:\nnop\n_c14_f3:\n.2byte .c14_loc4'])
+                          'c14_g4:\n.c14_loc3:\nnop\n.org $780\njmp .c14_loc3', '_c14_f2:\n.c14_loc4:\nnop\n_c14_f3:\n.2byte .c14_loc4'] + DEAD_BRANCH_NAMES)
         L.insert(i, _maybe_muted(rng, ins))
         return L, 'unresolvable-label', pos_tag(i)
     if kind == 'no-variant':
@@ -268,7 +275,7 @@ class C14(core.Check):
                         'pos:zero-length@end': 2, 'pos:zero-length@start': 2, 'pos:zero-length@before-org-gap': 2,
                         'pos:zero-length@muted': 2, 'pos:zero-length@end-after-label': 2, 'outcome:success': 3,
                         'outcome:failure': 3, 'output-in-missing-directory': 3, 'long-run:directed': 20, 'odd-spacing:directed': 10, 'corpus-example': 2, 'window-options': 3,
-                        'planted:symbol-cycle': 3, 'no-image-asked-for': 3, 'page-local-target:page-0': 3, 'symbol-cycle:use-before-it-closes': 3, 'symbol-cycle:first-from-cmdline': 3,
+                        'planted:symbol-cycle': 3, 'no-image-asked-for': 3, 'page-local-target:page-0': 3, 'corruption:name-defined-in-an-uncompiled-branch-only': 3, 'symbol-cycle:use-before-it-closes': 3, 'symbol-cycle:first-from-cmdline': 3,
                         'symbol-cycle:first-from-config': 3}
 
     def make(self, isa_files, isa_name, main, src, fmt, planted, tags, missing_dir=False, extra_argv=()):
@@ -368,6 +375,12 @@ class C14(core.Check):
                                         'symbol-cycle:use-before-it-closes' if L_ > 1 else 'symbol-cycle:length-1',
                                         'pos:' + ['first', 'middle', 'last'][(L_ + use) % 3]}, extra_argv=extra)
                         yield c_
+        for k_, ins in enumerate(DEAD_BRANCH_NAMES):
+            for at in (0, len(lines) // 2, len(lines)):
+                Ld = lines[:at] + [ins] + lines[at:]
+                yield self.make({fn: itext}, fn, 'p.asm', '\n'.join(Ld) + '\n', None, 'unresolvable-label',
+                                {'corruption:name-defined-in-an-uncompiled-branch-only', 'fmt:None', 'planted:unresolvable-label',
+                                 'pos:' + ['first', 'middle', 'last'][[0, len(lines) // 2, len(lines)].index(at)]})
         # a page-local target outside the instruction's page does not fit its field, wherever the two pages are
         for k_, (ia_, ta_) in enumerate([(0x0200, 0x0010), (0x0300, 0x00FF), (0x0100, 0x0000), (0x0200, 0x0300), (0x0210, 0x01FF),
                                          (0x4000, 0x0040), (0x0100, 0x4001)]):
